@@ -126,15 +126,15 @@ func (m *Merger) Read() (rec *sam.Record, err error) {
 func (m *Merger) cat() (rec *sam.Record, err error) {
 	id := m.readers[0].id
 	rec, err = m.readers[0].r.Read()
-	if err == io.EOF && len(m.readers) != 0 {
+	if err == io.EOF {
 		m.readers = m.readers[1:]
-		err = nil
-	}
-	if rec == nil {
 		return m.Read()
 	}
+	if err != nil {
+		return nil, err
+	}
 	m.reassignReference(id, rec)
-	return rec, err
+	return rec, nil
 }
 
 func (m *Merger) nextBySortOrder() (rec *sam.Record, err error) {
